@@ -848,6 +848,15 @@ def run(ck, tier):
         ck.cov['binding_selftest'] = 'rejected' if mism == {2} and 2 in drift else 'NOT rejected: %r %r' % (mism, drift)
         if mism != {2}:
             raise Inconclusive('binding self-test failed: corrupted record not rejected')
+        # self-test of the E layer: on the model of the code as read (deviation FilterAnyProp) TLC must find the
+        # counterexample to any-monotonicity
+        t = vplib.run_tlc('ExprSema', 'ExprSema_asread.cfg', timeout=1200, name='asread')
+        ck.add_tlc('ExprSema self-test: any-monotonicity of the model of the code as read (must be violated)', t)
+        ck.cov['model_of_code_as_read'] = 'violates any-monotonicity (as expected)' if t.violated == 'AnyMonoAsRead' \
+            else 'NOT violated: %r' % t.violated
+        if t.violated != 'AnyMonoAsRead':
+            raise Inconclusive('E self-test failed: TLC finds no counterexample to any-monotonicity on the model with the '
+                               'deviation FilterAnyProp')
     finds.emit(ck)
     ck.cov['rule'] = ('every state of the TLC generator = one triple (expression, environment, single-step loosening): access '
                       'chains of length <= 3 over 5-6 operators on a context variable of every small object type, one- and '
